@@ -20,6 +20,7 @@ public:
     PrecedenceEnum get_precedence(const RCP<const Basic> &x) override;
     void bvisit(const Basic &x);
     void bvisit(const Complex &x);
+    void bvisit(const ComplexDouble &x);
     void bvisit(const Dummy &x);
     void bvisit(const Interval &x);
     void bvisit(const Contains &x);
